@@ -177,6 +177,41 @@ def _expand_attrpath_binding(binding: Binding) -> list[Binding]:
     return flattened
 
 
+def _leaf_binding_ids(values: Sequence[Any]) -> set[int]:
+    """Identities of the bindings that are rendered when attrpath trees are expanded."""
+    ids: set[int] = set()
+    for item in values:
+        if (
+            isinstance(item, Binding)
+            and item.nested
+            and isinstance(item.value, AttributeSet)
+        ):
+            ids |= _leaf_binding_ids(item.value.values)
+        else:
+            ids.add(id(item))
+    return ids
+
+
+def _select_render_values(
+    values: Sequence[Any], attrpath_order: Sequence[Any]
+) -> Sequence[Any]:
+    """Use the recorded attrpath order only while it still describes *values*.
+
+    Edits made through the mapping API change `values` (and the nested sets
+    below attrpath roots) without touching the recorded order; rendering the
+    stale order would ignore them.
+    """
+    if not attrpath_order:
+        return values
+    order_ids = {
+        id(item.binding) if isinstance(item, _AttrpathEntry) else id(item)
+        for item in attrpath_order
+    }
+    if order_ids == _leaf_binding_ids(values):
+        return attrpath_order
+    return values
+
+
 def _render_bindings(
     values: Sequence[Binding | Inherit | _AttrpathEntry], *, indent: int, inline: bool
 ) -> list[str]:
@@ -354,7 +389,7 @@ class AttributeSet(TypedExpression):
 
         multiline = self.multiline
         if not multiline:
-            render_values = self.attrpath_order if self.attrpath_order else self.values
+            render_values = _select_render_values(self.values, self.attrpath_order)
             inline_bindings = _render_bindings(
                 render_values, indent=indented, inline=True
             )
@@ -369,7 +404,7 @@ class AttributeSet(TypedExpression):
 
         if multiline:
             before_str = format_trivia(self.before, indent=indent)
-            render_values = self.attrpath_order if self.attrpath_order else self.values
+            render_values = _select_render_values(self.values, self.attrpath_order)
             bindings_str = "\n".join(
                 _render_bindings(render_values, indent=indented, inline=False)
             )
